@@ -74,3 +74,45 @@ func verifHarness_R1f_Helpers() {
 		verifAssert(divisibleByPower5(m, k) == verifS_divisibleByPower5(m, k), "divisibleByPower5 = strconv's")
 	}
 }
+
+//go:linkname verifS_ryuDigits32 strconv.ryuDigits32
+func verifS_ryuDigits32(d *verifSDec32, lower, central, upper uint32, c0, cup bool, endindex int)
+
+//go:linkname verifS_ryuDigits strconv.ryuDigits
+func verifS_ryuDigits(d *verifSDec32, lower, central, upper uint64, c0, cup bool)
+
+type verifSDec32 struct {
+	d      []byte
+	nd, dp int
+}
+
+func verifSameDigits(a *decimalSlice, b *verifSDec32) bool {
+	same := a.nd == b.nd && a.dp == b.dp && len(a.d) == len(b.d)
+	for i := 0; same && i < a.nd && i < len(a.d); i++ {
+		same = a.d[i] == b.d[i]
+	}
+	return same
+}
+
+// the digit emitters: same digits, digit count and decimal point as strconv's for arbitrary bounds
+func verifHarness_R1f_Digits() {
+	var a decimalSlice
+	var b verifSDec32
+	var ba, bb [32]byte
+	a.d, b.d = ba[:], bb[:]
+	c0 := nondetBool("c0")
+	cup := nondetBool("cup")
+	if verifChoice("fn", 2) == 0 {
+		l, c, u := nondetU32("lower"), nondetU32("central"), nondetU32("upper")
+		verifAssume(l <= c && c <= u && u < 1000000000)
+		ryuDigits32(&a, l, c, u, c0, cup, 8)
+		verifS_ryuDigits32(&b, l, c, u, c0, cup, 8)
+	} else {
+		l, c, u := nondetU64("lower"), nondetU64("central"), nondetU64("upper")
+		verifAssume(l <= c && c <= u && u < 1000000000000000000)
+		ryuDigits(&a, l, c, u, c0, cup)
+		verifS_ryuDigits(&b, l, c, u, c0, cup)
+	}
+	verifReach("R1f.digits")
+	verifAssert(verifSameDigits(&a, &b), "ryuDigits / ryuDigits32 emit the same digits, count and decimal point as strconv's")
+}
